@@ -15,12 +15,47 @@ class InjectedChunkFault(RuntimeError):
     pass
 
 
+class InjectedBaseFault(BaseException):
+    """Not an Exception subclass (stands for KeyboardInterrupt-like interruptions of a read)."""
+
+
+def _fault_factories():
+    import errno
+
+    def os_error(code):
+        return lambda msg: OSError(code, msg)
+
+    return [
+        ("InjectedIOError", InjectedIOError),
+        ("EIO", os_error(errno.EIO)),
+        ("ESTALE", os_error(errno.ESTALE)),
+        ("EINTR", os_error(errno.EINTR)),
+        ("EAGAIN", os_error(errno.EAGAIN)),
+        ("ENOENT", os_error(errno.ENOENT)),
+        ("TimeoutError", TimeoutError),
+        ("ConnectionResetError", ConnectionResetError),
+        ("MemoryError", MemoryError),
+        ("ValueError", lambda msg: ValueError("I/O operation on closed file (%s)" % msg)),
+        ("EOFError", EOFError),
+        ("InjectedBaseFault", InjectedBaseFault),
+    ]
+
+
+FAULT_KINDS = _fault_factories()
+
+
+def make_fault(exc_index, msg):
+    name, factory = FAULT_KINDS[(exc_index or 0) % len(FAULT_KINDS)]
+    return factory(msg)
+
+
 class FaultyFile:
     """File-like wrapper: raises InjectedIOError at the k-th read() call (0-based)."""
 
-    def __init__(self, raw, fail_at=None):
+    def __init__(self, raw, fail_at=None, exc_index=0):
         self.raw = raw
         self.fail_at = fail_at
+        self.exc_index = exc_index
         self.reads = 0
         self.fired = False
 
@@ -29,7 +64,7 @@ class FaultyFile:
         self.reads += 1
         if self.fail_at is not None and i == self.fail_at:
             self.fired = True
-            raise InjectedIOError("injected I/O error at read call %d" % i)
+            raise make_fault(self.exc_index, "injected I/O error at read call %d" % i)
         return self.raw.read(n)
 
     def seek(self, *a):
@@ -56,8 +91,9 @@ class TrackedOpen:
     """Replaces pathlib.Path.open for the duration of the context; every file it hands
     out is wrapped in FaultyFile(fail_at) and remembered."""
 
-    def __init__(self, fail_at=None):
+    def __init__(self, fail_at=None, exc_index=0):
         self.fail_at = fail_at
+        self.exc_index = exc_index
         self.files = []
         self._orig = None
 
@@ -67,7 +103,7 @@ class TrackedOpen:
 
         def patched(path_self, *args, **kw):
             raw = tracker._orig(path_self, *args, **kw)
-            ff = FaultyFile(raw, tracker.fail_at)
+            ff = FaultyFile(raw, tracker.fail_at, tracker.exc_index)
             tracker.files.append(ff)
             return ff
 
